@@ -99,39 +99,35 @@ Definition underline_kind (n : N) : option (option N) :=
 (* the parameter groups of one SGR sequence, left to right.  An extended colour
    is either one group with sub-parameters (38:5:n, 38:2:r:g:b) or the legacy
    spelling spread over consecutive single-value groups (38;5;n, 38;2;r;g;b). *)
-Fixpoint sgr_groups (fuel : nat) (s : sstyle) (gs : list (list N)) : sstyle :=
-  match fuel with
-  | O => s
-  | S f =>
-      match gs with
-      | [] => s
-      | [c] :: rest =>
-          match ext_target c, rest with
-          | Some t, [5] :: [n] :: rest' => sgr_groups f (set_target t s (Some (CIdx n))) rest'
-          | Some t, [2] :: [r] :: [g] :: [b] :: rest' => sgr_groups f (set_target t s (Some (CRgb r g b))) rest'
-          | Some _, _ => sgr_groups f s rest          (* incomplete: outside what the properties cover *)
-          | None, _ => sgr_groups f (sgr_code s c) rest
-          end
-      | [c; 5; n] :: rest =>
-          match ext_target c with
-          | Some t => sgr_groups f (set_target t s (Some (CIdx n))) rest
-          | None => sgr_groups f s rest
-          end
-      | [c; 2; r; g; b] :: rest =>
-          match ext_target c with
-          | Some t => sgr_groups f (set_target t s (Some (CRgb r g b))) rest
-          | None => sgr_groups f s rest
-          end
-      | [4; n] :: rest =>
-          match underline_kind n with
-          | Some k => sgr_groups f (set_underline s k) rest
-          | None => sgr_groups f s rest
-          end
-      | _ :: rest => sgr_groups f s rest
+Fixpoint sgr_groups (s : sstyle) (gs : list (list N)) : sstyle :=
+  match gs with
+  | [] => s
+  | [c] :: rest =>
+      match ext_target c, rest with
+      | Some t, [5] :: [n] :: rest' => sgr_groups (set_target t s (Some (CIdx n))) rest'
+      | Some t, [2] :: [r] :: [g] :: [b] :: rest' => sgr_groups (set_target t s (Some (CRgb r g b))) rest'
+      | Some _, _ => sgr_groups s rest          (* incomplete: outside what the properties cover *)
+      | None, _ => sgr_groups (sgr_code s c) rest
       end
+  | [c; 5; n] :: rest =>
+      match ext_target c with
+      | Some t => sgr_groups (set_target t s (Some (CIdx n))) rest
+      | None => sgr_groups s rest
+      end
+  | [c; 2; r; g; b] :: rest =>
+      match ext_target c with
+      | Some t => sgr_groups (set_target t s (Some (CRgb r g b))) rest
+      | None => sgr_groups s rest
+      end
+  | [4; n] :: rest =>
+      match underline_kind n with
+      | Some k => sgr_groups (set_underline s k) rest
+      | None => sgr_groups s rest
+      end
+  | _ :: rest => sgr_groups s rest
   end.
 
-Definition sgr_apply (s : sstyle) (gs : list (list N)) : sstyle := sgr_groups (S (length gs)) s gs.
+Definition sgr_apply (s : sstyle) (gs : list (list N)) : sstyle := sgr_groups s gs.
 
 (* the rendition in effect after a stream of parser events, and the visible text
    tagged with it *)
